@@ -214,6 +214,68 @@ Definition dstep_result (pol : policy) (ce : coenv) (s0 : dst) (oq : out)
     end
   else None.
 
+(* ------------------------------------------------------------------------ a Task started on an executor (C12's start forms) *)
+(* Task::ToFuture(e) / Detach(e) / Cancel() = Detach(MakeInline(StopTag)) (lazy/task.hpp:97-120) call detail::Start(core, e)
+   (src/lazy/task_impl.cpp:6-10):  head = MoveToCaller(core) walks back to the FIRST core of the chain; head->_executor = &e
+   overwrites whatever the head was built with (the e1 of Schedule(e1, f), MakeInline() of MakeTask / a coroutine);
+   e.Submit( *head).  The other cores are untouched: one attached with Then(e1, f) keeps e1, one attached without an executor
+   still holds nullptr and takes its predecessor's executor when it is reached (TransferExecutorTo) — so e is inherited from
+   the head down to the first step that names its own.  ToFuture() / Detach() (Start(core), :12-15) submit the head to the
+   executor it already holds: that is [drun] of the same program.
+   [dlazy pol ce s e p]: p is a lazy program (a Task source followed by Then steps), started on e.
+   The head's job is logged with the head's callback id (0 for MakeTask's ReadyCore, which has none).  A coroutine head is
+   resumed inside e's Call of the promise: its invocation carries (e, submitted). *)
+Fixpoint dlazy (pol : policy) (ce : coenv) (s : dst) (e : exec) (p : prog) {struct p} : option (out * dst) :=
+  match p with
+  | PReady WT t r =>
+      (* ReadyCore::Call: SetResult; ReadyCore::Drop: Store(StopTag{}); Call() (lazy/make.hpp:18-27) *)
+      Some (Out (if accepts pol s e then r else Err EStop) e t [], submitted pol s 0 e)
+  | PRun WT _ id par rt body => drun pol ce s (PRun WT e id par rt body)
+  | PProm WT t _ id b => drun pol ce s (PProm WT t e id b)
+  | PCoro WT t id r =>
+      (* PromiseType::Call resumes the body; Drop stores StopTag and completes without resuming (promise_type.hpp:107-121) *)
+      if accepts pol s e then
+        let '(r', ex, evs, s') := co_segs pol (submitted pol s id e) e [Ev id e true INone] (ce id) r in
+        Some (Out r' ex t evs, s')
+      else Some (Out (Err EStop) e t [], submitted pol s id e)
+  | PThen q id par a rt body =>
+      match dlazy pol ce s e q with
+      | Some (oq, s0) => dstep_result pol ce s0 oq id par a rt body
+      | None => None
+      end
+  | _ => None
+  end.
+
+(* how a lazy program is started: None = ToFuture() / Detach() / Get(), Some e = ToFuture(e) / Detach(e) / Cancel() *)
+Definition dstart (pol : policy) (ce : coenv) (s : dst) (st : option exec) (p : prog) : option (out * dst) :=
+  match st with None => drun pol ce s p | Some e => dlazy pol ce s e p end.
+
+(* a lazy program: a Task source followed by Then steps *)
+Fixpoint lazy_prog (p : prog) : bool :=
+  match p with
+  | PReady WT _ _ | PRun WT _ _ _ _ _ | PProm WT _ _ _ _ | PCoro WT _ _ _ => true
+  | PThen q _ _ _ _ _ => lazy_prog q
+  | _ => false
+  end.
+
+(* the nearest upstream named executor of a lazy program started on e: the last Then(e1, f) on the spine, e if there is none *)
+Fixpoint lnamed (e : exec) (p : prog) : exec :=
+  match p with
+  | PThen q _ _ (AOn e1) _ _ => e1
+  | PThen q _ _ _ _ _ => lnamed e q
+  | _ => e
+  end.
+
+(* id under which the head's job is logged *)
+Fixpoint head_job_id (p : prog) : nat :=
+  match p with
+  | PRun _ _ id _ _ _ => id
+  | PProm _ _ _ id _ => id
+  | PCoro _ _ id _ => id
+  | PThen q _ _ _ _ _ => head_job_id q
+  | _ => 0
+  end.
+
 (* ------------------------------------------------------------------------------------- vocabulary of the statements *)
 
 (* the nearest upstream named executor, read off the program text: the executor given to the last Then(e, f) /
